@@ -770,28 +770,45 @@ impl Module for M {
                     // draw_exact / sub_image_eq_cropped_image (both target implementations)
                     ctx.expect(out.r1.map == want, "C09:draw-exact-default-target", || format!("{} got {} want {}", op, out.r1.fmt_map(), fmt_map(&want)));
                     ctx.expect(out.r2.map == want, "C09:draw-exact-native-target", || format!("{} got {} want {}", op, out.r2.fmt_map(), fmt_map(&want)));
-                    // draw_stream / sub_stream: one fill_contiguous with exactly width x height colours,
-                    // the region's pixels row-major (R2 drains the iterator and records everything)
-                    let mut pulled: Vec<u32> = Vec::new();
+                    // draw_stream / sub_stream (the text): every colour stream handed to fill_contiguous has exactly
+                    // width x height colours for the area it is given, and carries, row-major over that area, the pixel the
+                    // image shows at each point (before the target clips; R2 drains the iterator and records everything).
+                    // NOT the text (the model's call list, validated as `tie-hypothesis` classes: a failure is a broken tie,
+                    // not a failing input): that the image is drawn by ONE fill_contiguous call and that its area is the
+                    // bounding box.
+                    let mut want_full: std::collections::HashMap<(i32, i32), u32> = std::collections::HashMap::new();
+                    if let Some((_, _, rw, rh)) = region {
+                        let o = exp_off((rw, rh));
+                        for py in 0..rh {
+                            for px in 0..rw {
+                                want_full.insert(((o.0 + px) as i32, (o.1 + py) as i32), want_stream[(py * rw + px) as usize]);
+                            }
+                        }
+                    }
                     let mut fc = 0;
+                    let mut other_calls = 0;
                     for c in &out.r2.log {
                         match c {
                             Call::FillContiguous(a, cs) => {
                                 fc += 1;
-                                pulled.extend(cs.iter());
                                 let n = a.size.width as usize * a.size.height as usize;
                                 let surplus_is_next_row = cs.len() > n && cs.len() <= n + a.size.width as usize;
                                 ctx.expect(cs.len() == n, if surplus_is_next_row { "C09:stream-one-row-too-long" } else { "C09:stream-length" }, || {
                                     format!("{} area {} pulled {} colours want {}", op, fmt_rect(a), cs.len(), n)
                                 });
-                                ctx.expect(*a == out.bb, "C09:fill-area-is-bounding-box", || format!("{} area {} bb {}", op, fmt_rect(a), fmt_rect(&out.bb)));
+                                let colours_ok = cs.iter().take(n).enumerate().all(|(i, c)| {
+                                    let q = (a.top_left.x + (i as u32 % a.size.width) as i32, a.top_left.y + (i as u32 / a.size.width) as i32);
+                                    want_full.get(&q) == Some(c)
+                                });
+                                ctx.expect(colours_ok, "C09:stream-colours", || format!("{} area {} pulled {:?} want (whole region) {:?}", op, fmt_rect(a), cs, want_stream));
+                                ctx.expect(*a == out.bb, "C09:tie-hypothesis:fill-area-is-bounding-box", || format!("{} area {} bb {}", op, fmt_rect(a), fmt_rect(&out.bb)));
                             }
-                            _ => ctx.expect(false, "C09:unexpected-call", || format!("{} {}", op, c.fmt())),
+                            _ => other_calls += 1,
                         }
                     }
-                    ctx.expect(fc <= 1, "C09:unexpected-call", || format!("{} {} fill_contiguous calls", op, fc));
-                    let prefix_ok = pulled.len() >= want_stream.len() && pulled[..want_stream.len()] == want_stream[..];
-                    ctx.expect(prefix_ok, "C09:stream-colours", || format!("{} pulled {:?} want {:?}", op, pulled, want_stream));
+                    ctx.expect(fc <= 1 && other_calls == 0, "C09:tie-hypothesis:image-drawn-by-one-fill_contiguous", || {
+                        format!("{} {} fill_contiguous calls, {} other calls", op, fc, other_calls)
+                    });
                     if fc == 1 {
                         ctx.count("draw:fill_contiguous");
                     } else {
